@@ -44,3 +44,9 @@ package jsonapi
 //@ flag assumed
 //@ modifies $rh, new[uint8]
 //@ ensures fresh: fresh(result0)
+
+// Encoding: allocates the output, reads its argument.
+//@ func json.Marshal
+//@ flag assumed
+//@ modifies new[uint8]
+//@ ensures fresh: fresh(result0)
